@@ -103,6 +103,26 @@ func c04JWT(r *zsim.Run) {
 	clients := 1 + o.Intn(3)
 	done := 0
 	admitted, rejected := 0, 0
+	// well-formed, correctly signed tokens issued so far: clients present them again later, when their time
+	// claims may have stopped (or started) to hold
+	type issuedTok struct {
+		header string
+		claims map[string]any
+	}
+	var issued []issuedTok
+	timeValid := func(claims map[string]any) bool {
+		now := time.Now().Unix() // the clock is at now+0.5s
+		if e, ok := claims["exp"].(int64); ok && e <= now {
+			return false
+		}
+		if n, ok := claims["nbf"].(int64); ok && n > now {
+			return false
+		}
+		if n, ok := claims["iat"].(int64); ok && n > now {
+			return false
+		}
+		return true
+	}
 	for c := 0; c < clients; c++ {
 		c := c
 		n := 3 + o.Intn(12)
@@ -166,6 +186,19 @@ func c04JWT(r *zsim.Run) {
 					header = "Bearer garbage.not-a.token"
 					shapeOK = false
 				}
+				reused := false
+				if len(issued) > 0 && o.Intn(4) == 0 {
+					// the very same token string again
+					it := issued[o.Intn(len(issued))]
+					header, claims = it.header, it.claims
+					timeOK, secretOK, algOK, shapeOK, reused = timeValid(claims), true, true, true, true
+					r.Probe("token_presented_again")
+					if !timeOK {
+						r.Probe("token_presented_again_after_expiry")
+					}
+				} else if secretOK && algOK && shapeOK {
+					issued = append(issued, issuedTok{header, claims})
+				}
 				req := httptest.NewRequest(http.MethodGet, "http://sim/protected", nil)
 				if header != "" {
 					req.Header.Set("Authorization", header)
@@ -176,7 +209,7 @@ func c04JWT(r *zsim.Run) {
 				h.ServeHTTP(rec, req)
 				ran, seenUID := ranFor[id], uidFor[id]
 				want := timeOK && secretOK && algOK && shapeOK
-				r.Logf("c%d token alg=%s secret=%d timeOK=%v shapeOK=%v -> %d ran=%v (want %v)", c, alg, secretKind, timeOK, shapeOK, rec.Code, ran, want)
+				r.Logf("c%d token alg=%s secret=%d timeOK=%v shapeOK=%v reused=%v -> %d ran=%v (want %v)", c, alg, secretKind, timeOK, shapeOK, reused, rec.Code, ran, want)
 				if want != ran {
 					if want {
 						r.Failf("valid-token-rejected", "a bearer token signed with %s (alg %s, valid time claims) was rejected with status %d", map[bool]string{true: "the current secret", false: "the previous secret"}[secret == cur], alg, rec.Code)
@@ -232,96 +265,111 @@ func c04Signature(r *zsim.Run) {
 	}
 	strict := o.Intn(4) != 0
 	tolerance := zsim.Pick(o, time.Minute, time.Hour)
-	ran := 0
+	ranFor := map[string]bool{}
 	h := ContentSecurityHandler(map[string]codec.RsaDecryptor{"fp1": dec}, tolerance, strict)(http.HandlerFunc(func(w http.ResponseWriter, req *http.Request) {
-		ran++
+		ranFor[req.Header.Get("X-Req")] = true
 		w.WriteHeader(http.StatusOK)
 	}))
 	r.Logf("signature strict=%v tolerance=%v", strict, tolerance)
 	admitted, rejected := 0, 0
-	for i := 0; i < 6+o.Intn(14) && !r.Failed(); i++ {
-		if o.Intn(4) == 0 {
-			zsim.Sleep(time.Duration(1+o.Intn(4000)) * time.Second)
-		}
-		method := zsim.Pick(o, http.MethodPost, http.MethodGet, http.MethodPut, http.MethodDelete, http.MethodPatch)
-		path := zsim.Pick(o, "/a/b", "/x")
-		query := zsim.Pick(o, "k=v&n=1", "", "q=1")
-		body := zsim.Pick(o, `{"a":1}`, "", "payload")
-		now := time.Now().Unix()
-		tol := int64(tolerance / time.Second)
-		off := zsim.Pick(o, int64(0), 0, -tol+2, tol-2, -tol-2, tol+2)
-		ts := fmt.Sprint(now + off)
-		key := []byte(fmt.Sprintf("hmac-key-%d", i))
-		sum := sha256.Sum256([]byte(body))
-		content := strings.Join([]string{ts, method, path, query, fmt.Sprintf("%x", sum[:])}, "\n")
-		m := hmac.New(sha256.New, key)
-		m.Write([]byte(content))
-		sig := base64.StdEncoding.EncodeToString(m.Sum(nil))
-		secretPlain := fmt.Sprintf("key=%s; time=%s; type=0", base64.StdEncoding.EncodeToString(key), ts)
-		enc, err := rsa.EncryptPKCS1v15(rand.Reader, &c04Key.PublicKey, []byte(secretPlain))
-		if err != nil {
-			r.Failf("harness-encrypt", "%v", err)
-			return
-		}
-		fp := "fp1"
-		secret := base64.StdEncoding.EncodeToString(enc)
-		tamper := zsim.Pick(o, "none", "none", "method", "path", "query", "body", "signature", "fingerprint", "secret", "header-missing")
-		sendMethod, sendPath, sendQuery, sendBody := method, path, query, body
-		switch tamper {
-		case "method":
-			sendMethod = map[string]string{http.MethodPost: http.MethodPut, http.MethodGet: http.MethodDelete, http.MethodPut: http.MethodPost, http.MethodDelete: http.MethodGet, http.MethodPatch: http.MethodPost}[method]
-		case "path":
-			sendPath = path + "/other"
-		case "query":
-			sendQuery = query + "&admin=1"
-		case "body":
-			sendBody = body + "!"
-		case "signature":
-			sig = base64.StdEncoding.EncodeToString([]byte("forged-signature-000000000000000"))
-		case "fingerprint":
-			fp = "unknown"
-		case "secret":
-			secret = base64.StdEncoding.EncodeToString([]byte("not rsa"))
-		}
-		url := "http://sim" + sendPath
-		if sendQuery != "" {
-			url += "?" + sendQuery
-		}
-		req := httptest.NewRequest(sendMethod, url, bytes.NewReader([]byte(sendBody)))
-		chunked := o.Intn(4) == 0
-		if chunked {
-			req.ContentLength = -1 // Transfer-Encoding: chunked: the length is unknown when the gate runs
-		}
-		if tamper != "header-missing" {
-			req.Header.Set(httpx.ContentSecurity, fmt.Sprintf("fingerprint=%s; secret=%s; signature=%s", fp, secret, sig))
-		}
-		rec := httptest.NewRecorder()
-		before := ran
-		h.ServeHTTP(rec, req)
-		checked := sendMethod != http.MethodPatch // only GET/POST/PUT/DELETE are verified
-		inTol := off >= -tol && off <= tol
-		want := !checked || !strict || (tamper == "none" && inTol)
-		if tamper == "method" && sendMethod != http.MethodPatch && method == http.MethodPatch {
-			want = !strict // a PATCH-signed request replayed as POST
-		}
-		r.Logf("req %s %s?%s tamper=%s off=%d chunked=%v -> %d ran=%v (want %v)", sendMethod, sendPath, sendQuery, tamper, off, chunked, rec.Code, ran != before, want)
-		if want != (ran != before) {
-			if want {
-				r.Failf("valid-signature-rejected", "a correctly signed %s request (timestamp offset %ds, tolerance %ds, strict=%v) was rejected with %d", sendMethod, off, tol, strict, rec.Code)
-			} else {
-				r.Failf("tampered-request-admitted", "strict mode: the handler ran for a request with tampering=%s and timestamp offset %ds (tolerance %ds)", tamper, off, tol)
+	// the one decryptor per fingerprint is shared by every request in flight
+	clients, done := 1+o.Intn(3), 0
+	for c := 0; c < clients; c++ {
+		c := c
+		n := 6 + o.Intn(14)/clients
+		r.Go(fmt.Sprintf("client%d", c), func() {
+			defer func() { done++ }()
+			for i := 0; i < n && !r.Failed(); i++ {
+				if o.Intn(4) == 0 {
+					zsim.Sleep(time.Duration(1+o.Intn(4000)) * time.Second)
+				}
+				method := zsim.Pick(o, http.MethodPost, http.MethodGet, http.MethodPut, http.MethodDelete, http.MethodPatch)
+				path := zsim.Pick(o, "/a/b", "/x")
+				query := zsim.Pick(o, "k=v&n=1", "", "q=1")
+				body := zsim.Pick(o, `{"a":1}`, "", "payload")
+				now := time.Now().Unix()
+				tol := int64(tolerance / time.Second)
+				off := zsim.Pick(o, int64(0), 0, -tol+2, tol-2, -tol-2, tol+2)
+				ts := fmt.Sprint(now + off)
+				key := []byte(fmt.Sprintf("hmac-key-%d-%d", c, i))
+				sum := sha256.Sum256([]byte(body))
+				content := strings.Join([]string{ts, method, path, query, fmt.Sprintf("%x", sum[:])}, "\n")
+				m := hmac.New(sha256.New, key)
+				m.Write([]byte(content))
+				sig := base64.StdEncoding.EncodeToString(m.Sum(nil))
+				secretPlain := fmt.Sprintf("key=%s; time=%s; type=0", base64.StdEncoding.EncodeToString(key), ts)
+				enc, err := rsa.EncryptPKCS1v15(rand.Reader, &c04Key.PublicKey, []byte(secretPlain))
+				if err != nil {
+					r.Failf("harness-encrypt", "%v", err)
+					return
+				}
+				fp := "fp1"
+				secret := base64.StdEncoding.EncodeToString(enc)
+				tamper := zsim.Pick(o, "none", "none", "method", "path", "query", "body", "signature", "fingerprint", "secret", "header-missing")
+				sendMethod, sendPath, sendQuery, sendBody := method, path, query, body
+				switch tamper {
+				case "method":
+					sendMethod = map[string]string{http.MethodPost: http.MethodPut, http.MethodGet: http.MethodDelete, http.MethodPut: http.MethodPost, http.MethodDelete: http.MethodGet, http.MethodPatch: http.MethodPost}[method]
+				case "path":
+					sendPath = path + "/other"
+				case "query":
+					sendQuery = query + "&admin=1"
+				case "body":
+					sendBody = body + "!"
+				case "signature":
+					sig = base64.StdEncoding.EncodeToString([]byte("forged-signature-000000000000000"))
+				case "fingerprint":
+					fp = "unknown"
+				case "secret":
+					secret = base64.StdEncoding.EncodeToString([]byte("not rsa"))
+				}
+				url := "http://sim" + sendPath
+				if sendQuery != "" {
+					url += "?" + sendQuery
+				}
+				req := httptest.NewRequest(sendMethod, url, bytes.NewReader([]byte(sendBody)))
+				chunked := o.Intn(4) == 0
+				if chunked {
+					req.ContentLength = -1 // Transfer-Encoding: chunked: the length is unknown when the gate runs
+				}
+				if tamper != "header-missing" {
+					req.Header.Set(httpx.ContentSecurity, fmt.Sprintf("fingerprint=%s; secret=%s; signature=%s", fp, secret, sig))
+				}
+				rec := httptest.NewRecorder()
+				id := fmt.Sprintf("%d-%d", c, i)
+				req.Header.Set("X-Req", id)
+				h.ServeHTTP(rec, req)
+				handlerRan := ranFor[id]
+				checked := sendMethod != http.MethodPatch // only GET/POST/PUT/DELETE are verified
+				inTol := off >= -tol && off <= tol
+				want := !checked || !strict || (tamper == "none" && inTol)
+				if tamper == "method" && sendMethod != http.MethodPatch && method == http.MethodPatch {
+					want = !strict // a PATCH-signed request replayed as POST
+				}
+				r.Logf("req %s %s?%s tamper=%s off=%d chunked=%v -> %d ran=%v (want %v)", sendMethod, sendPath, sendQuery, tamper, off, chunked, rec.Code, handlerRan, want)
+				if want != (handlerRan) {
+					if want {
+						r.Failf("valid-signature-rejected", "a correctly signed %s request (timestamp offset %ds, tolerance %ds, strict=%v) was rejected with %d", sendMethod, off, tol, strict, rec.Code)
+					} else {
+						r.Failf("tampered-request-admitted", "strict mode: the handler ran for a request with tampering=%s and timestamp offset %ds (tolerance %ds)", tamper, off, tol)
+					}
+					return
+				}
+				if want {
+					admitted++
+				} else {
+					rejected++
+					if rec.Code != http.StatusForbidden {
+						r.Failf("wrong-rejection-status", "a request failing signature verification was answered %d, want 403", rec.Code)
+						return
+					}
+				}
 			}
-			return
-		}
-		if want {
-			admitted++
-		} else {
-			rejected++
-			if rec.Code != http.StatusForbidden {
-				r.Failf("wrong-rejection-status", "a request failing signature verification was answered %d, want 403", rec.Code)
-				return
-			}
-		}
+		})
+	}
+	if !r.WaitFor(30*24*time.Hour, time.Hour, func() bool { return done == clients }) {
+		r.Failf("clients-blocked", "clients blocked: %v", r.Alive(false))
+		return
 	}
 	if admitted > 0 && rejected > 0 {
 		r.NonTrivial()
